@@ -167,15 +167,30 @@ func checkC10(w *Worker) {
 		together := x.Choose(2, "fault:delivery") == 1
 		chunk := []int{0, 1}[x.Choose(2, "env:chunk")]
 		fl := map[string]string{"food.yaml": db, "log.yaml": lg}
-		args := append([]string{"--no-color"}, cmd.Args...)
+		// a period may be active: the days after it must still be read completely
+		periodFlags := [][]string{nil, {"-e", "2021/01/24"}, {"-b", "2021/01/24", "-e", "2021/01/24"}, {"-b", "2021/01/25"}}[x.Choose(4, "config:period")]
+		if cmd.Args[0] == "lint" || cmd.Args[0] == "summary" || !cmd.Log {
+			periodFlags = nil
+		}
+		args := append(append([]string{"--no-color"}, periodFlags...), cmd.Args...)
 		base := runCU(cuCase{Args: args, Files: fl})
 		fr := &faultReader{data: []byte(target), FailAt: k, Chunk: chunk, Together: together}
 		r := runCU(cuCase{Args: args, Files: fl, Readers: map[string]*faultReader{name: fr}})
 		x.Obs(r.Key())
-		x.Case(fmt.Sprint(ci, which, k, together, chunk, db, lg), fr.Failed)
+		x.Case(fmt.Sprint(ci, which, k, together, chunk, db, lg, periodFlags), fr.Failed)
 		cname := strings.Join(cmd.Args, " ")
+		if periodFlags != nil {
+			cname = "(with a period) " + cname
+		}
 		if r.Panic != "" {
 			x.Violate("C10|"+cname+"|panic", r.String(), nil)
+			return
+		}
+		if !r.Failed && r.Stdout == base.Stdout {
+			// the report happens to be complete, but the file could not be read completely (the reader fails at
+			// byte k <= len whether or not the command got that far): the first sentence of the property wants an error
+			x.Violate("C10|"+cname+"|success-although-the-file-cannot-be-read-completely", fmt.Sprintf("`%s`: %s cannot be read past byte %d of %d (chunk %d, error with last bytes: %v; the command read %d bytes) and the command reports success\n%s:\n%s", strings.Join(args, " "), name, k, len(target), chunk, together, fr.pos, name, target),
+				map[string]interface{}{"cmd": cname, "args": args, "file": name, "content": target, "fail_at": k, "bytes_read": fr.pos})
 			return
 		}
 		if !r.Failed && r.Stdout != base.Stdout {
